@@ -6,6 +6,13 @@ NOTE = ("bounded scope only (declared lattices/catalogues/depths); exact Fractio
 TECH = "exhaustive small-scope enumeration of the real implementation against an exact reference model (explicit-state explorer written for this task)"
 
 CHECKS = {
+    "C09": ("dist over all lattice point pairs (2D radius 2, 3D radius 1; several homogeneous representatives, int/float), point x every lattice "
+            "line/plane (incident and not; equal coordinate vectors), point x 3D lines in all lattice directions, planes parallel to lines, parallel "
+            "planes, exactly one point at infinity, segments, polygons (2D and three embeddings; foot inside / boundary / outside; in and off plane), "
+            "cuboid; angle over all lattice triples (2D oriented mod pi with antisymmetry, 3D unoriented incl. collinear), all pairs of lattice lines, "
+            "line-direction, all pairs of lattice planes, concurrent 3D lines; invariance under rational isometries. Oracles are closed forms evaluated "
+            "from exact rationals.",
+            NOTE, TECH, "DESIGN.md section 5, C09"),
     "C06": ("Explicit-state BFS over words in {s, t, s^-1, t^-1} (depth 4 quick / 5 thorough) for pairs of exact generator matrices (shear, swap, "
             "projective, det 2, det -3, rational rotation, translation, complex unitary / phase-permutation, integer-dtype matrices) in 2D and 3D; "
             "state = canonical exact matrix of the word; at every transition the real letter is applied to the real objects of the parent state "
